@@ -146,7 +146,7 @@ fn history_ops(h: usize) -> (String, Vec<Op>) {
             // the multimap's KEY tree gets three levels, with value subtrees hanging off leaves
             // that are not children of the root
             let mut b = vec![open(0, "m", M_UU)];
-            for k in 0..220u64 {
+            for k in 0..300u64 {
                 b.push(Op::MInsert { slot: 0, k: Val::U(1000 + k), v: Val::U(k) });
             }
             for v in 0..45u64 {
@@ -195,6 +195,10 @@ pub fn base_specs(tier: &str) -> Vec<BaseSpec> {
                 continue;
             }
             for kind in [ImageKind::Closed, ImageKind::CrashStopped] {
+                if tier == "quick" && *h == 4 && kind == ImageKind::CrashStopped {
+                    // quick tier: the deep multimap on the closed image only (time)
+                    continue;
+                }
                 v.push(BaseSpec { history: *h, cfg: *cfg, kind });
             }
         }
